@@ -185,7 +185,10 @@ func sequencePurity(ctx *core.Ctx) {
 	}
 	seqDone = true
 	queries := []string{"a:b AND c", "x", "NOT y OR k:[1 TO 5]", "status:open OR urgent", "a b*", "w* /re/", "foo~ bar^2", "a:(x OR y) z", `"p q" -r`,
-		"a AND", "(a b", "x y)", "a:[1 TO", `"unterminated`, "a:b:c", "a:!", "", "a:b~2 AND c:d", "n:[1 TO 5] OR m:(1 OR 2)", "+x -y", "5", "a:5 b"}
+		"a AND", "(a b", "x y)", "a:[1 TO", `"unterminated`, "a:b:c", "a:!", "", "a:b~2 AND c:d", "n:[1 TO 5] OR m:(1 OR 2)", "+x -y", "5", "a:5 b",
+		// pairs that plausible cache keys would confuse: regrouped, re-spaced, quoted vs bare
+		"p:1 AND q:2 OR r:3", "p:1 AND (q:2 OR r:3)", "pp:1 OR qq:2 AND rr:3", "(pp:1 OR qq:2) AND rr:3", "-(a:1 OR b:2) AND c:3", "-a:1 OR b:2 AND c:3",
+		`k:"7"`, "k:7", "k:7.0", `a:["1" TO "5"]`, "a:[1 TO 5]", "a:b  AND  c", "A:b AND c", "a:b and c", `a:"b" AND c`, "a:(b) AND c", "a:b* AND c", `a:"b*" AND c`}
 	opts := []string{"", "dfa", "my field", ""}
 	call := func(fn int, q, df string, explicitEmpty bool) string {
 		switch fn {
